@@ -25,14 +25,14 @@ Proof. unfold mon_adv. apply fold_left_app. Qed.
 
 (** the safety part again, now also giving the acceptor's state at the end of the run *)
 Lemma mon_accepts_adv nh hp ls : forall s ms i,
-  Inv s -> fix5 s = true -> fix12 s = true -> RelM s ms ->
+  Inv s -> fix5 s = true -> fix12 s = true -> nh = Close.nh s -> RelM s ms ->
   mon_run_from nh hp ms i (trace s ls) = [] /\ RelM (exec s ls) (mon_adv nh hp ms (trace s ls)).
 Proof.
-  induction ls as [|l ls IH]; intros s ms i I F5 F12 R; simpl; [split; [reflexivity | assumption]|].
+  induction ls as [|l ls IH]; intros s ms i I F5 F12 Hnh R; simpl; [split; [reflexivity | assumption]|].
   destruct (step s l) as [s0|] eqn:E; [|apply IH; assumption].
-  destruct (flags_step s l s0 E) as (G5 & _ & G12 & _).
+  destruct (flags_step s l s0 E) as (G5 & _ & G12 & Gn).
   pose proof (Inv_step s l s0 I E) as I0.
-  destruct (sim_step nh hp s l s0 ms I F5 F12 E R) as [[He R0]|(e & ms' & He & Hm & R0)]; rewrite He.
+  destruct (sim_step nh hp s l s0 ms I F5 F12 Hnh E R) as [[He R0]|(e & ms' & He & Hm & R0)]; rewrite He.
   - simpl. apply IH; congruence.
   - rewrite mon_run_from_app, mon_adv_app. simpl. rewrite Hm. simpl.
     destruct (IH s0 ms' (i + 1) I0) as [H1 H2]; try congruence. split; assumption.
@@ -41,31 +41,21 @@ Qed.
 (** ** the fields judged at rest *)
 Record RelQ (s : state) (ms : mstate) : Prop := {
   q_sub : forall h, mem h (m_subclosed ms) = Nat.leb 1 (sub_closes s h);
-  q_pub : forall h, mem h (m_pubclosed ms) = Nat.leb 1 (pub_closes s h);
-  q_sig : m_signalled ms = closingCh s;
-  q_early : m_early ms = early_cancel s
+  q_pub : forall h, mem h (m_pubclosed ms) = Nat.leb 1 (pub_closes s h)
 }.
 
 Lemma RelQ_init_u n u hon f5 f6 f12 f16 : RelQ (init_u n u hon f5 f6 f12 f16) minit.
 Proof. constructor; simpl; intros; reflexivity. Qed.
 
-Lemma mem_cons_cnt (g : hid -> nat) l h :
-  (forall x, mem x l = Nat.leb 1 (g x)) -> forall x, mem x (h :: l) = Nat.leb 1 (upd g h (S (g h)) x).
-Proof.
-  intros H x. unfold mem in *. simpl. destruct (Nat.eq_dec x h) as [->|Hne].
-  - rewrite Nat.eqb_refl, upd_same. reflexivity.
-  - rewrite upd_other by assumption. apply Nat.eqb_neq in Hne. rewrite Hne. simpl. apply H.
-Qed.
-
 Lemma simq_step nh hp s l s' ms :
   step s l = Some s' -> RelQ s ms -> RelQ s' (mon_adv nh hp ms (emit s l)).
 Proof.
-  intros H [Qs Qp Qg Qe]. unfold emit. rewrite H.
+  intros H [Qs Qp]. unfold emit. rewrite H.
   destruct l; step_cases H; simpl.
   all: try match goal with |- context [match ?r with RNil => _ | RErr => _ end] => destruct r end; simpl.
   all: constructor; simpl; intros;
        first [ apply (mem_cons_cnt _ _ _ Qs) | apply (mem_cons_cnt _ _ _ Qp) | apply Qs | apply Qp | assumption
-             | rewrite Qg, Qe; reflexivity | reflexivity | congruence | solve [rew_pcs; congruence] | idtac ].
+             | reflexivity | congruence | solve [rew_pcs; congruence] | idtac ].
 Qed.
 
 Lemma simq_exec nh hp ls : forall s ms, RelQ s ms -> RelQ (exec s ls) (mon_adv nh hp ms (trace s ls)).
@@ -78,14 +68,6 @@ Qed.
 (** at rest (every handleClose goroutine has decided) and without an early context cancel the
     acceptor's verdict is "accepted" too: every subscriber was asked to close, and after a nil
     Close every publisher is closed *)
-Lemma all_pubs_closed s : Inv s -> quiescent s -> forall h, h < nh s -> 1 <= pub_closes s h.
-Proof.
-  intros I [_ Hq] h Hlt. pose proof (a_base s (i_a s I)) as IA.
-  apply (a_pub s IA h). specialize (Hq h).
-  destruct (lp s h) eqn:E; simpl in *; try discriminate; [|reflexivity].
-  exfalso. apply (a_hb2 s IA h); assumption.
-Qed.
-
 Theorem model_accepted_at_rest n hon ls hp :
   let s0 := init n hon true true true in
   let s := exec s0 ls in
@@ -94,7 +76,7 @@ Theorem model_accepted_at_rest n hon ls hp :
   mon_run n hp (trace s0 ls ++ [AQuiescent]) = [].
 Proof.
   intros s0 s He Hd. unfold mon_run. rewrite mon_run_from_app.
-  destruct (mon_accepts_adv n hp ls s0 minit 0 (Inv_init n hon true true true) eq_refl eq_refl (RelM_init n hon true true true)) as [Hacc R].
+  destruct (mon_accepts_adv n hp ls s0 minit 0 (Inv_init n hon true true true) eq_refl eq_refl eq_refl (RelM_init n hon true true true)) as [Hacc R].
   pose proof (simq_exec n hp ls s0 minit (RelQ_init_u n 0 hon true true true true)) as Q.
   fold s in R, Q. rewrite Hacc. simpl.
   set (ms := mon_adv n hp minit (trace s0 ls)) in *.
@@ -116,8 +98,8 @@ Qed.
 
 (** every run of the repaired model (any never-started handlers, with or without the D6/D16
     repairs) is accepted event by event *)
-Theorem mon_accepts_model_u nh hp n u hon f6 f16 ls :
-  mon_run nh hp (trace (init_u n u hon true f6 true f16) ls) = [].
+Theorem mon_accepts_model_u hp n u hon f6 f16 ls :
+  mon_run n hp (trace (init_u n u hon true f6 true f16) ls) = [].
 Proof.
-  unfold mon_run. apply mon_accepts_from; [apply Inv_init_u | reflexivity | reflexivity | apply RelM_init_u].
+  unfold mon_run. apply mon_accepts_from; [apply Inv_init_u | reflexivity | reflexivity | reflexivity | apply RelM_init_u].
 Qed.
